@@ -192,6 +192,13 @@ def run(ctx):
     ctx.exhaustive.append("from_datetime on every calendar day 1958-01-01..2137-06-06" + (" (quick: one residue class mod 16 + both epochs)" if ctx.quick else "") + " x 6 times of day")
     for _ in range(ctx.n(5_000, 1_000_000)):
         k_from_datetime(ctx, r.randrange(MAX_US + 1) if r.random() < 0.5 else r.randrange(65536 * MS) * 1000)
+    # sub-millisecond boundaries: just below / at / above half a millisecond, the last microseconds of a day, of a second
+    sub = (1, 499, 500, 501, 999)
+    for d in (0, 1, 4381, 4382, 4383, 4384, 20000, 65534, 65535) + tuple(r.getrandbits(16) for _ in range(ctx.n(40, 4000))):
+        for ms in (0, 1, 999, 1000, 43_199_999, 86_398_999, 86_399_998, MS - 1, r.randrange(MS)):
+            for us in sub + (r.randrange(1, 1000),):
+                k_from_datetime(ctx, (d * MS + ms) * 1000 + us)
+                ctx.table("from_datetime_sub_ms", ("last_ms_of_day" if ms == MS - 1 else "other_ms") + "/" + ("us<500" if us < 500 else "us>=500"))
     # additions
     edge = [(10, MS - 1000, 0, 1, 0), (10, MS - 1001, 0, 1, 0), (10, MS - 999, 0, 1, 0), (10, MS - 1, 0, 0, 1000), (10, MS - 1, 0, 0, 999), (10, 0, 0, 86399, 999_999),
             (10, 1, 0, 86399, 999_000), (0, 0, 65535, 0, 0), (0, 0, 65536, 0, 0), (65535, MS - 1, 0, 0, 1000), (65535, MS - 1000, 0, 1, 0), (65535, 0, 0, 86399, 999_000),
